@@ -340,7 +340,21 @@ func (index *PatternIndex) mod(ctx *Context, pairs []piPair, id string, op piOp)
 		// has the array as a value.
 		morePairs := make([]piPair, 0, len(vv))
 		// fmt.Printf("working array %v\n", vv)
-		sorted, err := SortValues(vv)
+
+		// A variable in an array can match any element of the
+		// fact's array, so it has no place in the ordering of
+		// the constants.  Put variables first.  (A search
+		// reaches the variable's node with the whole array
+		// and then looks for the constants in order.)
+		consts := make([]interface{}, 0, len(vv))
+		for _, x := range vv {
+			if s, is := x.(string); is && strings.HasPrefix(s, "?") {
+				morePairs = append(morePairs, piPair{k, s})
+				continue
+			}
+			consts = append(consts, x)
+		}
+		sorted, err := SortValues(consts)
 		if err != nil {
 			return err
 		}
